@@ -136,7 +136,7 @@ pub fn run(cfg: &Cfg) -> Stats {
         Err(st) => return st,
     };
     let mut total = sweep(cfg, &h, "c07", &|t, st, mode| check_triple(&h, t, st, mode));
-    let n = cfg.pick(300_000, 6_000_000);
+    let n = cfg.pick(1_000_000, 6_000_000);
     let s = run_strategy(&s_dressed(&h), cfg.seed, "c07-dressed", n, |d, st| check_parts(&h, &h.dressed_parts(d), st, Count::Hash));
     total = total.merge(s);
     total.subspace("LanguageIdentifier / Locale built from a biased triple + variants + extensions, maximize() twice (proptest)", n, false);
